@@ -131,7 +131,8 @@ def allocator_fns(tm):
         for blk in b["blocks"]:
             t = blk["term"]
             if t["k"] == "call" and t["callee"]["k"] == "def":
-                n = (t["callee"].get("resolved") or t["callee"])["path"]
+                from ..facts import canon_foreign
+                n = canon_foreign((t["callee"].get("resolved") or t["callee"])["path"], t["callee"].get("foreign"))
                 if n in ALLOC_FFI and b["path"] not in direct:
                     direct.append(b["path"])
                 callers.setdefault(n, set()).add(b["path"])
@@ -215,6 +216,18 @@ def allocator_contract(tm, path):
             continue
         ret = v.ret
         bound = None
+        if not isinstance(ret, Int):
+            # the mapping handed back inside a struct: the field carrying the result of the mapping call
+            maps_ = [e for e in v.trace if e.kind == "ffi" and e.name in ALLOC_FFI and isinstance(e.ret, Int)]
+            def leaves(x, d=0):
+                if isinstance(x, Int):
+                    yield x
+                elif isinstance(x, Adt) and d < 4:
+                    for f in x.fields:
+                        yield from leaves(f, d + 1)
+            cands = [x for x in leaves(ret) if maps_ and same_expr(x.e, maps_[-1].ret.e)]
+            if len(cands) == 1:
+                ret = cands[0]
         if isinstance(ret, Int) and src is not None:
             for x, s, lo, hi in guards.bounds(v.decisions):
                 if x.op in ("abs_diff", "abs_diff_s") and {x.args[0], x.args[1]} == {ret.e, src.e} and hi != guards.INF:
